@@ -51,8 +51,11 @@ func bad9(d []byte) byte { var xs [][]byte; xs = append(xs, d[1:]); d[1] = 9; re
 func ok9(d []byte) byte  { var xs [][]byte; xs = append(xs, d[1:]); xs = append(xs, d[2:]); return xs[0][0] + d[1] }
 type outer struct{ in *holder }
 func (h *holder) set(b []byte) { h.raw = b }
-func bad10(o *outer, b []byte) []byte { c := o.in; c.raw = b; return o.in.raw }
-func bad11(o *outer, b []byte) []byte { c := o.in; c.set(b); return o.in.raw }
+type two struct{ a, b *holder }
+func ok10b(o *outer, b []byte) []byte { c := o.in; c.raw = b; return o.in.raw }
+func ok11b(o *outer, b []byte) []byte { c := o.in; c.set(b); return o.in.raw }
+func bad10(o *two, b []byte, k int) []byte { c := o.a; if k > 0 { c = o.b }; c.raw = b; return o.a.raw }
+func bad11(o *two, b []byte) []byte { c := o.a; o.a = o.b; c.set(b); return o.a.raw }
 func ok10(o *outer) []byte { c := o.in; return c.raw }
 func ok8(m *holder, n int) []byte  { x := make([]byte, n); x[1] = 7; m.raw = x; return m.raw }
 `
@@ -69,7 +72,7 @@ func selfTest() int {
 		fmt.Fprintln(os.Stderr, "go2lean selftest:", err)
 		return 2
 	}
-	funcs := []string{"bad1", "ok1", "bad2", "ok2", "bad3", "ok3", "bad4", "callee", "bad5", "ok5", "win", "bad6", "ok6", "bad7", "bad8", "ok8", "bad9", "ok9", "holder.set", "bad10", "bad11", "ok10"}
+	funcs := []string{"bad1", "ok1", "bad2", "ok2", "bad3", "ok3", "bad4", "callee", "bad5", "ok5", "win", "bad6", "ok6", "bad7", "bad8", "ok8", "bad9", "ok9", "holder.set", "ok10b", "ok11b", "bad10", "bad11", "ok10"}
 	var w strings.Builder
 	var untranslated []string
 	translatePackage(dir, group{pkg: "t", stubs: "", funcs: funcs}, &w, &untranslated)
